@@ -202,8 +202,8 @@ func (r *replayer) runNative(spec JobSpec, file string) (string, error) {
 
 // confirm replays a counterexample; returns "confirmed" or a description of what happened instead.
 func (r *replayer) confirm(spec JobSpec, v *Violation, file string) string {
-	if len(v.Sched) > 0 {
-		return "not-replayable" // interleaving counterexample: needs the instrumented scheduler
+	if len(v.Sched) > 0 || spec.EngineOnly {
+		return "not-replayable" // interleaving / modelled-environment counterexample
 	}
 	out, err := r.runNative(spec, file)
 	if err != nil && out == "" {
